@@ -24,6 +24,7 @@ pub fn all() -> Vec<Regression> {
         Regression { name: "D2-radau-nan-success", property: "C04", what: "Radau: RHS returning NaN for t>0.5 must not end in Success with non-finite states", f: d2 },
         Regression { name: "D3-rk23-blowup-hang", property: "C04", what: "RK23 on y'=y^2 (blow-up at t=1) must return within 10^6 RHS calls", f: d3 },
         Regression { name: "D3-rk23-nan-hang", property: "C04", what: "RK23 with a NaN right-hand side must return within 10^6 RHS calls", f: d3_nan },
+        Regression { name: "D22-bdf-min-step-hang", property: "C04", what: "BDF with min_step and a NaN right-hand side must return within 10^6 RHS calls", f: d22 },
         Regression { name: "D4-rk4-overshoot", property: "C03", what: "RK4 with first_step=0.3 on [0,1] must end at xend and never evaluate beyond it", f: d4 },
         Regression { name: "D5-first-step-gt-span", property: "C03", what: "first_step larger than the span must still report the end point under Success", f: d5 },
         Regression { name: "D5-first-step-wrong-sign", property: "C03", what: "wrong-sign first_step must not produce samples outside the interval / non-monotone t", f: d5_sign },
@@ -37,6 +38,7 @@ pub fn all() -> Vec<Regression> {
         Regression { name: "D18-hinit-probe-beyond-xend", property: "C03", what: "automatic initial step with max_step > span must not evaluate the RHS beyond xend", f: d18 },
         Regression { name: "D19-terminal-event-duplicates-sample", property: "C03", what: "terminal event on a step boundary (RK4 grid) must not repeat the previous sample time", f: d19 },
         Regression { name: "D20-landing-within-rounding", property: "C03", what: "Radau/BDF with max_step dividing the interval must end with Success, not StepSizeTooSmall", f: d20 },
+        Regression { name: "D23-bdf-lands-on-xend", property: "C03", what: "BDF backward from 1 to 0 with first_step=span, max_step=span/3.7 must report monotone times ending at xend", f: d23 },
         Regression { name: "D16-rk4-dense-order", property: "C07", what: "RK4 cubic Hermite dense output must be O(h^4) inside a step", f: d16 },
     ]
 }
@@ -437,6 +439,52 @@ fn d20() -> Result<(), String> {
         if s.status != Status::Success {
             return Err(format!("{}: status {:?} with t={:?}", mname(m), s.status, s.t));
         }
+    }
+    Ok(())
+}
+
+fn d22() -> Result<(), String> {
+    let p = base(Base::Harmonic(2.0));
+    let mut c = Cfg::new(Method::BDF, 0.0, 3.0, &p.y0).tol(1e-4, 1e-6);
+    c.min_step = Some(1e-3);
+    c.budget = 1_000_000;
+    let ans = |i: u64, _t: f64, _y: &[f64], d: &mut [f64]| {
+        if i >= 34 {
+            d[0] = f64::NAN;
+            d[1] = f64::NAN;
+        }
+    };
+    let r = run_with(&p, &c, Some(&ans), None);
+    match &r.out {
+        Outcome::Budget => Err("more than 10^6 RHS calls".into()),
+        Outcome::Panic(m) => Err(format!("panic {}", m)),
+        Outcome::Ok(s) if s.status == Status::Success => Err("Success despite a NaN right-hand side".into()),
+        _ => Ok(()),
+    }
+}
+
+fn d23() -> Result<(), String> {
+    let p = crate::problems::Prob {
+        name: "rest".into(),
+        n: 1,
+        f: std::sync::Arc::new(|t, y, d| d[0] = -2.0 * (-2.0 * (t - 1.0) - y[0])),
+        jac: None,
+        flow: None,
+        y0: vec![0.0],
+        linear_homogeneous: false,
+    };
+    let mut c = Cfg::new(Method::BDF, 1.0, 0.0, &p.y0).tol(1e-3, 1e-6);
+    c.first_step = Some(-1.0);
+    c.max_step = Some(1.0 / 3.7);
+    let r = run(&p, &c);
+    let s = sol_of(&r)?;
+    for w in s.t.windows(2) {
+        if !(w[1] < w[0]) {
+            return Err(format!("t not strictly decreasing: {:?}", s.t));
+        }
+    }
+    if *s.t.last().unwrap() != 0.0 {
+        return Err(format!("last sample {:e} is not xend", s.t.last().unwrap()));
     }
     Ok(())
 }
